@@ -198,4 +198,4 @@ QUERIES = [
                                "values": "k, g, k2, edit operand, assigned input: unbounded symbolic ints"},
           outside=["more than two parameters", "two edits", "formulas returning 'bases' lists"]),
 ]
-BUDGET = {"quick": 420, "thorough": 2400}
+BUDGET = {"quick": 420, "thorough": 1200}
